@@ -3,7 +3,11 @@
 Layer 1: direct drive of `H11Protocol` (sessions of harness/core/h11sessions.py) — scope and body monitors + model.
 Layer 2: `filter_pseudo_headers` against the Lean function on random header lists.
 Layer 3: end-to-end on both workers, HTTP/1.0, 1.1 and 2, every two-way split of short requests, random k-way and
-one-byte-per-read splits, eager / lazy / slow consumers (more chunks than the app queue holds)."""
+one-byte-per-read splits, eager / lazy / slow consumers (more chunks than the app queue holds).
+Layer 4: HTTP/2 connections carrying several requests, with applications that answer before (or without) reading the
+body and clients that upload late: what a later request's application receives must not depend on them.
+All layers run under the configurations the statement names: raw headers on/off x server names set/unset, with the
+client's own spelling of the header names (`Host`, `host`, `HOST` ...)."""
 from __future__ import annotations
 
 import random
@@ -17,7 +21,7 @@ from ..core.framework import Ctx, b2s
 
 SPEC = {
     "modules": ["HC.Props.C01"],
-    "extracted": ["Guards", "Consts", "H11Tables"],
+    "extracted": ["Guards", "Consts", "H11Tables", "ReqGlue"],
     "technique": "Lean 4: scope construction law (target split, method, headers), per-event forwarding lemmas and a transducer theorem for runs of body events (concatenation / one final message / segmentation independence at the glue), filter_pseudo_headers spec, one instance per request (with C06 serial) — tied by direct drive of H11Protocol with h11 taps and by end-to-end runs on both workers over every two-way split",
     "level_text": "Proved in Lean: the HTTP/1 scope is exactly (upper-cased method, target split at the first '?' with nothing lost, version, header list as h11 reports it or raw when configured); a WebSocket scope is chosen iff GET + Upgrade: websocket + Connection upgrade token; on HTTP/2 the header list is host (from :authority, else host) followed by the non-pseudo, non-host headers in order; every Data / EndOfMessage event of the parser is forwarded to the live instance as exactly one http.request message carrying those bytes; for every chunking of the body the messages concatenate to the body with exactly one more_body=False message iff the parser reported completion, independently of how the parser cut the bytes; handling a Request spawns exactly one instance, and (C06) only when none is live.  That the parsers' events carry the client's bytes for every segmentation is library behaviour: sampled end-to-end on both workers (HTTP/1.0, 1.1, 2; content-length, chunked, DATA frames; every two-way split of requests <= 300 bytes, random k-way and one-byte-per-read splits; eager, lazy and slow consumers with more chunks than the bounded app queue holds).",
     "level_note": "Trusted: Lean kernel; models HC/Proto/H11.lean, HC/Stream/Http.lean, HC/Pure/Utils.lean (differential runs); h11 / h2 / hpack parsing and the asyncio Queue / trio memory channel FIFO semantics are library behaviour (sampled); urllib.parse.unquote is compared with an independent percent-decoder written in the harness; the HTTP/2 protocol glue is covered end-to-end only (no Lean model of H2Protocol's receive side beyond filter_pseudo_headers).",
@@ -43,10 +47,26 @@ def pct_decode(raw: bytes) -> str:
     return out.decode("utf-8", "replace")
 
 
-def expected_scope_h1(r: dict) -> dict:
+def admitted(r: dict, cfg: Optional[dict]) -> bool:
+    """is the request for one of the configured server names (always, when none are configured)?  A request for
+    another host is refused by configuration (404, no application instance): not a request the statement speaks about."""
+    names = (cfg or {}).get("server_names") or []
+    if not names:
+        return True
+    host = next((v.strip(" \t") for n, v in r["headers"] if n.lower() == "host"), "")
+    return host in names
+
+
+def h2_authority(r: dict) -> str:
+    """the HTTP/2 client sends the request's Host value as :authority"""
+    return next((v.strip(" \t") for n, v in r["headers"] if n.lower() == "host"), "x")
+
+
+def expected_scope_h1(r: dict, raw: bool = False) -> dict:
     target = r["target"].encode("latin1")
     raw_path, _, query = target.partition(b"?")
-    headers = [[n.lower(), v.strip(" \t")] for n, v in r["headers"]]
+    # names lower-cased unless raw headers are configured (then: the client's spelling)
+    headers = [[n if raw else n.lower(), v.strip(" \t")] for n, v in r["headers"]]
     if r["chunks"] is not None:
         headers.append(["transfer-encoding", "chunked"])
     elif r["body"] or r["method"] in ("POST", "PUT", "PATCH"):
@@ -56,8 +76,8 @@ def expected_scope_h1(r: dict) -> dict:
             "http_version": r["version"], "headers": headers}
 
 
-def check_scope(ctx: Ctx, case: dict, k: int, r: dict, scope: dict, where: str, extra_sig: dict) -> None:
-    want = expected_scope_h1(r)
+def check_scope(ctx: Ctx, case: dict, k: int, r: dict, scope: dict, where: str, extra_sig: dict, raw: bool = False) -> None:
+    want = expected_scope_h1(r, raw)
     got = {"method": scope["method"], "raw_path": scope["raw_path"], "query_string": scope["query_string"],
            "path": scope.get("_path", scope.get("path")), "http_version": scope["http_version"], "headers": scope["headers"]}
     if got != want:
@@ -70,12 +90,20 @@ def check_direct(ctx: Ctx, cases: List[dict]) -> None:
         rng = random.Random(case["seed"])
         blobs = [HS.request_bytes(r) for r in case["requests"]]
         reads = blobs if case["split"] == "per_request" else HS.split_bytes(rng, b"".join(blobs), case["split"])
-        cfg = {"keep_alive_max_requests": 1000}
+        ccfg = case.get("cfg") or {}
+        raw = bool(ccfg.get("h11_pass_raw_headers"))
+        cfg = {"keep_alive_max_requests": 1000, **ccfg}
         policy = HS.Policy(rng, reads, case["requests"], case["apps"], eof=True)
         mops, obs, lib = HS.run_session(cfg, policy)
         ctx.evaluations += 1
         ctx.traces_validated += 1
         HS.compare_with_model(ctx, case, cfg, mops, obs, lib)
+        # library fact the theorem `server_name_raw_indep` assumes: h11's `headers` are `raw_items()` with lower-cased names
+        for mo in mops:
+            if mo.get("k") == "request":
+                ctx.disagreements_checked += 1
+                if mo["headers"] != [[n.lower(), v] for n, v in mo["raw_headers"]]:
+                    ctx.disagree("lib.h11.raw_items", case, mo["raw_headers"], mo["headers"])
         flat: List[list] = []
         for o in obs:
             if o is not None:
@@ -83,13 +111,21 @@ def check_direct(ctx: Ctx, cases: List[dict]) -> None:
                 if o.get("handler_exception"):
                     ctx.violation("handler_exception", case, o["handler_exception"], {"family": "direct", "error": o["handler_exception"]})
         spawns = [e for e in flat if e[0] == "spawn"]
-        reqs = case["requests"]
-        closes_early = False
+        # the requests that can be served: a request for another server name is answered 404 + connection: close
+        reqs = []
+        for r in case["requests"]:
+            if not admitted(r, cfg):
+                break
+            reqs.append(r)
+        sigc = {"raw": raw, "names": bool(ccfg.get("server_names"))} if ccfg else {}
+        if len(spawns) < min(1, len(reqs)):
+            # the first request of a connection is always reached: it must start its application
+            ctx.violation("instance_count", case, {"got": len(spawns), "want_at_least": 1, "cfg": ccfg}, {"family": "direct", **sigc})
         for k, sp in enumerate(spawns):
             if k >= len(reqs):
-                ctx.violation("phantom_instance", case, sp, {"family": "direct"})
+                ctx.violation("phantom_instance", case, sp, {"family": "direct", **sigc})
                 break
-            check_scope(ctx, case, k, reqs[k], sp[2], "direct", {})
+            check_scope(ctx, case, k, reqs[k], sp[2], "direct", sigc, raw)
             body = HS.request_body(reqs[k])
             msgs = [e[2] for e in flat if e[0] == "put" and e[1] == sp[1] and e[2][0] == "http.request"]
             got = "".join(m[1] for m in msgs).encode("latin1")
@@ -98,8 +134,10 @@ def check_direct(ctx: Ctx, cases: List[dict]) -> None:
             if not body.startswith(got) or len(finals) > 1 or (finals and got != body) or after_final:
                 ctx.violation("body", case, {"k": k, "got": len(got), "want": len(body), "finals": len(finals)}, {"family": "direct"})
             a = case["apps"][k % len(case["apps"])]
-            ctx.distinct(["direct", reqs[k]["kind"], len(reqs), "big" if len(body) > 1000 else ("none" if not body else "small"), case["split"], a["when"]])
+            ctx.distinct(["direct", reqs[k]["kind"], len(reqs), "big" if len(body) > 1000 else ("none" if not body else "small"), case["split"], a["when"],
+                          raw, bool(ccfg.get("server_names"))])
         ctx.count("direct.split", case["split"])
+        ctx.count("direct.cfg", f"raw={int(raw)} names={int(bool(ccfg.get('server_names')))}")
 
 
 def check_filter_pseudo(ctx: Ctx, n: int) -> None:
@@ -139,8 +177,10 @@ def consumer_script(kind: str) -> List[list]:
     return [["recv_body"]] + ok
 
 
-def e2e_observe(worker: str, proto: str, reads: List[bytes], reqs: List[dict], consumer: str, h2_bodies: Optional[list] = None) -> dict:
+def e2e_observe(worker: str, proto: str, reads: List[bytes], reqs: List[dict], consumer: str, h2_bodies: Optional[list] = None,
+                cfg: Optional[dict] = None) -> dict:
     scripts = [consumer_script(consumer)]
+    cfg = dict(cfg or {})
     if proto == "2":
         box: Dict[str, Any] = {}
 
@@ -150,7 +190,7 @@ def e2e_observe(worker: str, proto: str, reads: List[bytes], reqs: List[dict], c
             for r in reqs:
                 body = HS.request_body(r)
                 hs = [(n.lower().encode("latin1"), v.encode("latin1")) for n, v in r["headers"] if n.lower() != "host"]
-                c.request(C.h2_headers(r["method"].upper(), r["target"], authority="x", extra=hs), body if (body or r["chunks"] is not None) else None)
+                c.request(C.h2_headers(r["method"].upper(), r["target"], authority=h2_authority(r), extra=hs), body if (body or r["chunks"] is not None) else None)
             # the client's bytes, cut as the case says
             data = c.out()
             sizes = [len(x) for x in reads]
@@ -164,17 +204,71 @@ def e2e_observe(worker: str, proto: str, reads: List[bytes], reqs: List[dict], c
             await io.sleep(3.0)
             await c.pump(io)
             return c.summary()
-        res = R.RUNNERS[worker]({}, "h2", client, scripts, tail=10)
+        res = R.RUNNERS[worker](cfg, "h2", client, scripts, tail=10)
     else:
         async def client(io):
             for chunk in reads:
+                if io.closed_at is not None:      # the server has closed (404 + connection: close): a client stops writing
+                    break
                 await io.send(chunk)
             await io.sleep(3.0)
-        res = R.RUNNERS[worker]({}, None, client, scripts, tail=10)
+        res = R.RUNNERS[worker](cfg, None, client, scripts, tail=10)
     apps = [{"scope": a["scope"], "body": "".join(m[2] for m in a["recv"] if m[1] == "http.request"),
              "finals": sum(1 for m in a["recv"] if m[1] == "http.request" and m[3] is False),
              "msgs": len([m for m in a["recv"] if m[1] == "http.request"])} for a in res["apps"]]
     return {"apps": apps, "error": res["error"], "loop_errors": res["loop_errors"], "client_error": res["client_error"]}
+
+
+HOST_SPELLINGS = ["Host", "host", "HOST", "hOsT"]
+
+
+def gen_cfg(rng) -> dict:
+    """the configurations the statement names: raw headers on/off x server names set/unset"""
+    cfg: Dict[str, Any] = {}
+    if rng.random() < 0.4:
+        cfg["h11_pass_raw_headers"] = True
+    names = rng.choice([None, None, ["x"], ["x", "alt.example"]])
+    if names:
+        cfg["server_names"] = names
+    return cfg
+
+
+def respell(rng, reqs: List[dict], cfg: dict) -> None:
+    """the client's own spelling of the Host header name; now and then a request for a server name that is not configured"""
+    for r in reqs:
+        for h in r["headers"]:
+            if h[0].lower() == "host":
+                h[0] = rng.choice(HOST_SPELLINGS)
+                if cfg.get("server_names") and rng.random() < 0.08:
+                    h[1] = "other.example"
+
+
+def cfg_corpus() -> Tuple[List[dict], List[dict]]:
+    """deterministic: every configuration x every spelling of `Host`, direct and end-to-end, both workers"""
+    direct, e2e = [], []
+    i = 0
+    for raw in (False, True):
+        for names in (None, ["x"]):
+            cfg: Dict[str, Any] = {}
+            if raw:
+                cfg["h11_pass_raw_headers"] = True
+            if names:
+                cfg["server_names"] = names
+            for sp in ("Host", "host", "HOST"):
+                i += 1
+                reqs = [{"kind": "plain", "method": "GET", "target": "/a?b=1", "headers": [[sp, "x"], ["X-Mixed-Case", "v1"]], "version": "1.1", "body": "", "chunks": None},
+                        {"kind": "body_cl", "method": "POST", "target": "/up", "headers": [[sp, "x"], ["Accept", ""]], "version": "1.1", "body": "hello=world", "chunks": None}]
+                app = {"when": "after_body", "status": 200, "chunks": ["ok"], "content_length": True, "crash": None, "ws": "close"}
+                direct.append({"family": "direct", "requests": reqs, "apps": [app, app], "split": ["one", "random", "bytewise"][i % 3], "seed": 100 + i, "cfg": cfg})
+                e2e.append({"family": "e2e", "proto": "1.1" if i % 4 else "1.0", "worker": "asyncio" if i % 2 else "trio", "consumer": "eager", "seed": 200 + i,
+                            "requests": [dict(reqs[1], version="1.1" if i % 4 else "1.0")], "cfg": cfg})
+    # a request for a server name that is not configured starts no application (and HTTP/1 serves nothing after it)
+    other = {"kind": "plain", "method": "GET", "target": "/", "headers": [["Host", "other.example"]], "version": "1.1", "body": "", "chunks": None}
+    ok = {"kind": "plain", "method": "GET", "target": "/", "headers": [["Host", "x"]], "version": "1.1", "body": "", "chunks": None}
+    for proto, worker in (("1.1", "asyncio"), ("2", "trio")):
+        e2e.append({"family": "e2e", "proto": proto, "worker": worker, "consumer": "eager", "seed": 300, "requests": [dict(ok), dict(other), dict(ok)],
+                    "cfg": {"server_names": ["x"]}})
+    return direct, e2e
 
 
 def gen_e2e_session(ctx: Ctx) -> dict:
@@ -199,8 +293,10 @@ def gen_e2e_session(ctx: Ctx) -> dict:
             reqs[0]["body"], reqs[0]["chunks"] = "m" * 25000, None
         else:
             reqs[0]["chunks"], reqs[0]["body"] = ["c%02d" % i for i in range(25)], ""
+    cfg = gen_cfg(rng)
+    respell(rng, reqs, cfg)
     return {"family": "e2e", "proto": proto, "requests": reqs, "consumer": rng.choice(["eager", "eager", "slow", "lazy"]),
-            "worker": rng.choice(["asyncio", "trio"]), "seed": rng.randrange(1 << 30)}
+            "worker": rng.choice(["asyncio", "trio"]), "seed": rng.randrange(1 << 30), "cfg": cfg}
 
 
 def check_e2e(ctx: Ctx, sessions: List[dict], all_two_way: bool) -> None:
@@ -220,7 +316,7 @@ def check_e2e(ctx: Ctx, sessions: List[dict], all_two_way: bool) -> None:
             for r in reqs:
                 body = HS.request_body(r)
                 hs = [(n.lower().encode("latin1"), v.encode("latin1")) for n, v in r["headers"] if n.lower() != "host"]
-                c.request(C.h2_headers(r["method"].upper(), r["target"], authority="x", extra=hs), body if (body or r["chunks"] is not None) else None)
+                c.request(C.h2_headers(r["method"].upper(), r["target"], authority=h2_authority(r), extra=hs), body if (body or r["chunks"] is not None) else None)
             L = len(c.out())
             blob = bytes(L)
         splits: List[List[bytes]] = [[blob]]
@@ -232,21 +328,36 @@ def check_e2e(ctx: Ctx, sessions: List[dict], all_two_way: bool) -> None:
             if L <= 400:
                 splits.append(HS.split_bytes(rng, blob, "bytewise"))
         ref = None
+        ccfg = case.get("cfg") or {}
+        raw = bool(ccfg.get("h11_pass_raw_headers"))
+        # requests the configuration admits: HTTP/1 answers a request for another server name 404 + connection: close
+        # (nothing after it is served), HTTP/2 refuses only that stream
+        if case["proto"] == "2":
+            served = [r for r in reqs if admitted(r, ccfg)]
+        else:
+            served = []
+            for r in reqs:
+                if not admitted(r, ccfg):
+                    break
+                served.append(r)
         for reads in splits:
-            o = e2e_observe(case["worker"], case["proto"], reads, reqs, case["consumer"])
+            o = e2e_observe(case["worker"], case["proto"], reads, reqs, case["consumer"], cfg=ccfg)
             ctx.evaluations += 1
             cls = "one" if len(reads) == 1 else ("two" if len(reads) == 2 else ("bytewise" if len(reads) == L else "kway"))
             ctx.count("e2e.split", cls)
             ctx.count("e2e.proto", case["proto"])
             sig = {"family": "e2e", "proto": case["proto"], "worker": case["worker"]}
+            if ccfg:
+                sig.update({"raw": raw, "names": bool(ccfg.get("server_names"))})
+                ctx.count("e2e.cfg", f"raw={int(raw)} names={int(bool(ccfg.get('server_names')))}")
             short = {"family": "e2e", "proto": case["proto"], "worker": case["worker"], "consumer": case["consumer"], "requests": reqs,
-                     "reads": [len(x) for x in reads], "seed": case["seed"]}
+                     "reads": [len(x) for x in reads], "seed": case["seed"], "cfg": ccfg}
             if o["error"] or o["loop_errors"] or o["client_error"]:
                 ctx.violation("handler_exception", short, {k: o[k] for k in ("error", "loop_errors", "client_error")}, {**sig, "kind": "internal"})
                 continue
-            if len(o["apps"]) != len(reqs):
-                ctx.violation("instance_count", short, {"got": len(o["apps"]), "want": len(reqs)}, sig)
-            for k, (a, r) in enumerate(zip(o["apps"], reqs)):
+            if len(o["apps"]) != len(served):
+                ctx.violation("instance_count", short, {"got": len(o["apps"]), "want": len(served)}, sig)
+            for k, (a, r) in enumerate(zip(o["apps"], served)):
                 body = HS.request_body(r)
                 if a["body"].encode("latin1") != body or a["finals"] != 1:
                     ctx.violation("body", short, {"k": k, "got": len(a["body"]), "want": len(body), "finals": a["finals"]}, sig)
@@ -254,17 +365,17 @@ def check_e2e(ctx: Ctx, sessions: List[dict], all_two_way: bool) -> None:
                 if case["proto"] == "2":
                     target = r["target"].encode("latin1")
                     raw_path, _, query = target.partition(b"?")
-                    want_h = [["host", "x"]] + [[n.lower(), v.strip()] for n, v in r["headers"] if n.lower() != "host"]   # h2 strips OWS
+                    want_h = [["host", h2_authority(r)]] + [[n.lower(), v.strip()] for n, v in r["headers"] if n.lower() != "host"]   # h2 strips OWS
                     got = [sc["method"], sc["raw_path"], sc["query_string"], sc["path"], sc["http_version"], sc["scheme"], sc["headers"]]
                     want = [r["method"].upper(), b2s(raw_path), b2s(query), pct_decode(raw_path), "2", "https", want_h]
                     if got != want:
                         ctx.violation("scope", short, {"k": k, "got": got, "want": want}, {**sig, "fields": "h2"})
                 else:
-                    check_scope(ctx, short, k, r, {**sc, "_path": sc["path"]}, "e2e", {"proto": case["proto"]})
+                    check_scope(ctx, short, k, r, {**sc, "_path": sc["path"]}, "e2e", {k2: v for k2, v in sig.items() if k2 not in ("family", "worker")}, raw)
                     if sc["scheme"] != "http" or sc["client"] != ["127.0.0.1", 4242] or sc["server"] != ["162.1.1.1", 80]:
                         ctx.violation("scope_addresses", short, sc, sig)
                 size = "big" if len(body) > 1000 else ("none" if not body else "small")
-                ctx.distinct(["e2e", case["proto"], r["kind"], len(reqs), size, cls, case["consumer"]])
+                ctx.distinct(["e2e", case["proto"], r["kind"], len(reqs), size, cls, case["consumer"], raw, bool(ccfg.get("server_names"))])
             # segmentation independence: the observation is the same for every split of the same session
             view = [[a["scope"], a["body"], a["finals"]] for a in o["apps"]]
             if ref is None:
@@ -272,6 +383,135 @@ def check_e2e(ctx: Ctx, sessions: List[dict], all_two_way: bool) -> None:
             elif view != ref:
                 ctx.violation("segmentation_dependent", short, {"reads": [len(x) for x in reads]}, sig)
         ctx.sample({"family": "e2e", "proto": case["proto"], "kinds": [r["kind"] for r in reqs], "consumer": case["consumer"], "splits": len(splits)}, cap=3)
+
+
+# --------------------------------------------------------------------------------------------------------------
+# HTTP/2 connections with several requests: early answers, late uploads
+# --------------------------------------------------------------------------------------------------------------
+H2_CONSUMERS = {
+    # reads the whole body, then answers
+    "eager": lambda: consumer_script("eager"),
+    "slow": lambda: consumer_script("slow"),
+    # answers without reading anything / after the first message only: the rest of the upload finds the stream gone
+    "early": lambda: consumer_script("eager")[1:],
+    "partial": lambda: [["recv"]] + consumer_script("eager")[1:],
+}
+
+
+def h2conn_observe(case: dict) -> dict:
+    reqs = case["requests"]
+    scripts = [H2_CONSUMERS[r["consumer"]]() for r in reqs]
+
+    async def client(io):
+        c = C.H2Client()
+        sids = []
+        for r in reqs:
+            body = r["body_len"] * b"u" if r["body_len"] else b""
+            hs = C.h2_headers(r["method"], r["target"], authority="x", extra=[(b"x-k", str(len(sids)).encode())])
+            if not r["body_len"]:
+                sid = c.request(hs, None)
+            elif r["upload"] == "late":
+                # the request head first; the body only after the application has had time to answer
+                sid = c.request(hs, None, end=False)
+                await c.pump(io)
+                await io.sleep(1.0)
+                await c.pump(io)
+                c.send_data(sid, body, True)
+            else:
+                sid = c.request(hs, body)
+            sids.append(sid)
+            if case["mode"] == "sequential":
+                for _ in range(12):
+                    await c.pump(io)
+                    if c.streams[sid]["ended"] and sid not in c.pending:
+                        break
+                    await io.sleep(0.5)
+        for _ in range(10):
+            await c.pump(io)
+            await io.sleep(0.5)
+        await c.pump(io)
+        return {"summary": c.summary(), "sids": sids, "unsent": {str(k): len(v[0]) for k, v in c.pending.items()},
+                "conn_window": c.conn.outbound_flow_control_window}
+    # (the idle timeout is not this property's subject: a client that waits for window must not find the connection gone)
+    res = R.RUNNERS[case["worker"]]({"keep_alive_timeout": 1000.0, **(case.get("cfg") or {})}, "h2", client, scripts, tail=10)
+    apps = [{"scope": a["scope"], "body_len": sum(len(m[2]) for m in a["recv"] if m[1] == "http.request"),
+             "body_ok": all(set(m[2]) <= {"u"} for m in a["recv"] if m[1] == "http.request"),
+             "finals": sum(1 for m in a["recv"] if m[1] == "http.request" and m[3] is False),
+             "after_final": any(m[1] == "http.request" for m in a["recv"][[i for i, m in enumerate(a["recv"]) if m[1] == "http.request" and m[3] is False][0] + 1:])
+             if any(m[1] == "http.request" and m[3] is False for m in a["recv"]) else False,
+             "exit": a["exit"]} for a in res["apps"]]
+    return {"apps": apps, "error": res["error"], "loop_errors": res["loop_errors"], "client_error": res["client_error"], "client": res.get("client_result")}
+
+
+def h2conn_corpus() -> List[dict]:
+    out = []
+    early = {"method": "POST", "target": "/early", "body_len": 40000, "consumer": "early", "upload": "late"}
+    for worker in ("asyncio", "trio"):
+        # more than a connection window (65535) of uploads whose applications had already answered, then an ordinary upload
+        out.append({"family": "h2conn", "worker": worker, "mode": "sequential", "seed": 1,
+                    "requests": [dict(early), dict(early), {"method": "POST", "target": "/read", "body_len": 100000, "consumer": "eager", "upload": "with_head"}]})
+    out.append({"family": "h2conn", "worker": "asyncio", "mode": "concurrent", "seed": 2,
+                "requests": [dict(early, body_len=30000), {"method": "PUT", "target": "/p", "body_len": 70000, "consumer": "partial", "upload": "with_head"},
+                             {"method": "POST", "target": "/read?x=1", "body_len": 90000, "consumer": "slow", "upload": "late"}]})
+    out.append({"family": "h2conn", "worker": "trio", "mode": "sequential", "seed": 3,
+                "requests": [dict(early, body_len=70000, upload="with_head"), {"method": "GET", "target": "/g", "body_len": 0, "consumer": "eager", "upload": "with_head"},
+                             {"method": "POST", "target": "/read", "body_len": 66000, "consumer": "eager", "upload": "with_head"}]})
+    return out
+
+
+def gen_h2conn(ctx: Ctx) -> dict:
+    rng = ctx.rng
+    n = rng.choice([2, 3, 3, 4])
+    reqs = []
+    for k in range(n):
+        size = rng.choice([0, 1, 5000, 30000, 40000, 70000])
+        reqs.append({"method": "POST" if size else rng.choice(["GET", "POST"]), "target": rng.choice(["/a", "/a/b?x=1", "/p%41th?%3F"]), "body_len": size,
+                     "consumer": rng.choice(["eager", "slow", "early", "early", "partial"]), "upload": rng.choice(["with_head", "late"])})
+    # the last one is an ordinary upload that is read
+    reqs[-1].update({"consumer": rng.choice(["eager", "slow"]), "body_len": rng.choice([1, 5000, 70000, 100000]), "method": "POST"})
+    return {"family": "h2conn", "worker": rng.choice(["asyncio", "trio"]), "mode": rng.choice(["sequential", "sequential", "concurrent"]),
+            "requests": reqs, "seed": rng.randrange(1 << 30)}
+
+
+def check_h2conn(ctx: Ctx, sessions: List[dict]) -> None:
+    for case in sessions:
+        o = h2conn_observe(case)
+        ctx.evaluations += 1
+        reqs = case["requests"]
+        sig = {"family": "h2conn", "worker": case["worker"]}
+        ctx.count("h2conn.mode", case["mode"])
+        if o["error"] or o["loop_errors"] or o["client_error"] or (o["client"] or {}).get("summary", {}).get("error"):
+            ctx.violation("handler_exception", case, {k: o[k] for k in ("error", "loop_errors", "client_error")} | {"client": (o["client"] or {}).get("summary", {}).get("error")},
+                          {**sig, "kind": "internal"})
+            continue
+        if len(o["apps"]) != len(reqs):
+            ctx.violation("instance_count", case, {"got": len(o["apps"]), "want": len(reqs)}, sig)
+        # instances are started in the order of the requests' HEADERS frames; `x-k` says which request an instance belongs to
+        for a in o["apps"]:
+            k = int(dict((n, v) for n, v in a["scope"]["headers"]).get("x-k", "-1"))
+            if not 0 <= k < len(reqs):
+                ctx.violation("scope", case, a["scope"], {**sig, "fields": "h2conn"})
+                continue
+            r = reqs[k]
+            ctx.count("h2conn.consumer", r["consumer"])
+            target = r["target"].encode("latin1")
+            raw_path, _, query = target.partition(b"?")
+            sc = a["scope"]
+            got = [sc["method"], sc["raw_path"], sc["query_string"], sc["path"], sc["http_version"], sc["headers"]]
+            want = [r["method"], b2s(raw_path), b2s(query), pct_decode(raw_path), "2", [["host", "x"], ["x-k", str(k)]]]
+            if got != want:
+                ctx.violation("scope", case, {"k": k, "got": got, "want": want}, {**sig, "fields": "h2conn"})
+            reads_all = r["consumer"] in ("eager", "slow")
+            detail = {"k": k, "consumer": r["consumer"], "got": a["body_len"], "want": r["body_len"], "finals": a["finals"],
+                      "client_unsent": (o["client"] or {}).get("unsent"), "client_conn_window": (o["client"] or {}).get("conn_window")}
+            if not a["body_ok"] or a["body_len"] > r["body_len"] or a["finals"] > 1 or a["after_final"] or (a["finals"] == 1 and a["body_len"] != r["body_len"]):
+                ctx.violation("body", case, detail, {**sig, "reader": reads_all})
+            elif reads_all and (a["body_len"] != r["body_len"] or a["finals"] != 1):
+                # the client completed this body (it had every byte to send and nothing but the server's flow control in
+                # its way): an application that reads must get all of it and exactly one final message
+                ctx.violation("body", case, detail, {**sig, "reader": True})
+            ctx.distinct(["h2conn", case["mode"], r["consumer"], r["upload"], "big" if r["body_len"] > 65535 else ("none" if not r["body_len"] else "small"), k > 0])
+        ctx.sample({"family": "h2conn", "mode": case["mode"], "requests": [[r["consumer"], r["upload"], r["body_len"]] for r in reqs]}, cap=5)
 
 
 def run(ctx: Ctx) -> None:
@@ -282,9 +522,12 @@ def run(ctx: Ctx) -> None:
         opts = {"big": rng.random() < 0.3, "weights": [6, 5, 5, 1, 1, 1, 1, 0, 0, 0, 0]}
         reqs = [HS.gen_request(rng, j, opts) for j in range(n)]
         apps = [HS.gen_app(rng, r, {"no_crash": True}) for r in reqs]
+        cfg = gen_cfg(rng)
+        respell(rng, reqs, cfg)
         cases.append({"family": "direct", "requests": reqs, "apps": apps, "split": rng.choice(["one", "random", "random", "bytewise", "per_request"]),
-                      "seed": rng.randrange(1 << 30)})
-    check_direct(ctx, cases)
+                      "seed": rng.randrange(1 << 30), "cfg": cfg})
+    corpus_direct, corpus_e2e = cfg_corpus()
+    check_direct(ctx, corpus_direct + cases)
     check_filter_pseudo(ctx, ctx.budget(400, 20000))
     sessions = [gen_e2e_session(ctx) for _ in range(ctx.budget(40, 1200))]
     # short sessions get every two-way split
@@ -303,13 +546,16 @@ def run(ctx: Ctx) -> None:
             sessions.append({"family": "e2e", "proto": proto, "worker": worker, "consumer": "slow", "seed": 7 + n,
                              "requests": [{"kind": "body_cl", "method": "POST", "target": "/up", "headers": [["Host", "x"]], "version": "1.1",
                                            "body": "u" * n, "chunks": None}]})
-    check_e2e(ctx, sessions, all_two_way=False)
+    check_e2e(ctx, corpus_e2e + sessions, all_two_way=False)
     check_e2e(ctx, shorts, all_two_way=True)
+    check_h2conn(ctx, h2conn_corpus() + [gen_h2conn(ctx) for _ in range(ctx.budget(12, 400))])
 
 
 def replay(ctx: Ctx, case: dict) -> None:
     if case.get("family") == "direct":
         check_direct(ctx, [case])
+    elif case.get("family") == "h2conn":
+        check_h2conn(ctx, [case])
     elif case.get("family") == "filter_pseudo":
         check_filter_pseudo(ctx, 200)
     else:
